@@ -32,10 +32,11 @@ func TestC15(t *testing.T) {
 			switch {
 			case created < nsets && (k <= 3 || created == 0):
 				set := GenSet(rt, opts)
+				// every later set lists all earlier ones as previous: two unrelated ObjectSets competing for one object have no
+				// defined winner (whoever re-creates a deleted object first keeps it), so their end state legitimately depends on
+				// the order of passes, which differs between a local and a delegated phase
 				for j := 0; j < created; j++ {
-					if rapid.IntRange(0, 3).Draw(rt, "prev") > 0 {
-						set.Previous = append(set.Previous, j)
-					}
+					set.Previous = append(set.Previous, j)
 				}
 				a.Steps = append(a.Steps, Step{Op: "createSet", Set: &set})
 				created++
